@@ -275,7 +275,7 @@ func GenSpec(rg *rand.Rand, o GenOpts) (*tls.ClientHelloSpec, SpecDesc) {
 				n := []int{32, 56, 65, 97, 133}[rg.Intn(5)]
 				add(fmt.Sprintf("ech_grease_enc%d", n), &tls.GREASEEncryptedClientHelloExtension{
 					CandidateCipherSuites: []tls.HPKESymmetricCipherSuite{{KdfId: 1, AeadId: []uint16{1, 2, 3}[rg.Intn(3)]}},
-					CandidatePayloadLens:  []uint16{[]uint16{128, 160, 192, 224}[rg.Intn(4)]},
+					CandidatePayloadLens:  []uint16{[]uint16{128, 160, 192, 224, 239, 240, 241, 256, 496, 1000, 4000}[rg.Intn(11)]}, // also payloads whose length needs both bytes of the prefix
 					EncapsulatedKey:       randBytes(rg, n),
 				})
 			}
@@ -487,7 +487,7 @@ func ForeignHello(rg *rand.Rand, sni string) ([]byte, []string) {
 		}
 		if maybe(30) {
 			// GREASE-like outer ECH with payload lengths from 1 byte upwards
-			pl := []int{1, 2, 3, 8, 15, 16, 17, 31, 32, 100, 144, 176, 208, 240}[rg.Intn(14)]
+			pl := []int{1, 2, 3, 8, 15, 16, 17, 31, 32, 100, 144, 176, 208, 240, 255, 256, 257, 272, 512, 1040, 3000}[rg.Intn(21)]
 			body := []byte{0}
 			body = append(body, u16s(0x0001, []uint16{1, 2, 3}[rg.Intn(3)])...)
 			body = append(body, byte(rg.Intn(256)))
